@@ -647,7 +647,8 @@ func detailsOf(s *status.Status) proto.Message {
 
 func statusWants() []*status.Status {
 	var out []*status.Status
-	for _, c := range []codes.Code{codes.FailedPrecondition, codes.Unimplemented, codes.InvalidArgument} {
+	// (Unknown is what a non-status error converts to: an error that is not a gRPC status never matches a want)
+	for _, c := range []codes.Code{codes.FailedPrecondition, codes.Unimplemented, codes.InvalidArgument, codes.Unknown} {
 		out = append(out, status.New(c, ""), status.New(c, "msg"))
 		d, _ := status.New(c, "").WithDetails(&spb.ModifyRPCErrorDetails{Reason: spb.ModifyRPCErrorDetails_UNSUPPORTED_PARAMS})
 		out = append(out, d)
@@ -668,7 +669,7 @@ func errorCases() []errCase {
 	}
 	var singles []error
 	var names []string
-	for _, c := range []codes.Code{codes.FailedPrecondition, codes.Unimplemented, codes.InvalidArgument} {
+	for _, c := range []codes.Code{codes.FailedPrecondition, codes.Unimplemented, codes.InvalidArgument, codes.Unknown} {
 		for _, msg := range []string{"", "msg", "other"} {
 			for _, det := range []bool{false, true} {
 				singles = append(singles, mk(c, msg, det))
@@ -676,8 +677,8 @@ func errorCases() []errCase {
 			}
 		}
 	}
-	singles = append(singles, errors.New("not a status"))
-	names = append(names, "non-status")
+	singles = append(singles, errors.New("not a status"), errors.New("msg"), fmt.Errorf("wrapped: %w", errors.New("msg")))
+	names = append(names, "non-status", "non-status 'msg'", "wrapped non-status")
 	out = append(out, errCase{name: "ClientErr{}", err: &client.ClientErr{}, isClientErr: true, ce: &client.ClientErr{}})
 	for i, e := range singles {
 		ce := &client.ClientErr{Recv: []error{e}}
